@@ -1,17 +1,9 @@
-(* Extract_krylov.v -- extraction of the Krylov models, their references and specs. *)
-From Coq Require Import Extraction ExtrOcamlBasic ExtrOcamlNatInt ExtrOcamlZBigInt.
+(* Extract_krylov.v -- extraction of the Krylov models (Krylov.v), the independent
+   references (KrylovRef.v) and the specification functions used by the oracles.
+   Directives: ExtractCommon.v (Basic, NatInt, ZBigInt, Z.ggcd -> zarith gcd). *)
+From Amgcl Require Import ExtractCommon.
 From Coq Require Import QArith Qcanon.
 From Amgcl Require Import Scalar QcInst Vec Crs Kernels Krylov KrylovRef.
-Extraction Blacklist List String Int Nat.
-Set Extraction Optimize.
-(* Krylov iterates are rationals with 10^4..10^5 digits: the structural binary gcd of the
-   standard library (recursion depth = bit length) is replaced by zarith's gcd.
-   Z.ggcd a b = (g, (a/g, b/g)) with g = gcd(|a|,|b|) >= 0 (trusted base, see C01.py). *)
-Extract Constant Z.ggcd =>
-  "(fun a b -> let g = Big_int_Z.gcd_big_int a b in
-     if Big_int_Z.sign_big_int g = 0 then (g, (Big_int_Z.zero_big_int, Big_int_Z.zero_big_int))
-     else (g, (Big_int_Z.div_big_int a g, Big_int_Z.div_big_int b g)))".
-Extract Constant Z.gcd => "(fun a b -> Big_int_Z.gcd_big_int a b)".
 Separate Extraction
   QcInst.QcS Scalar.is_zero Scalar.smax Scalar.smin
   Vec Crs Kernels Krylov KrylovRef.
